@@ -278,7 +278,8 @@ Section Sound.
   Theorem registry_ofb_sound :
     registry_ofb defs labels r = true -> prelude_nodocs_b r = true -> RegistryOf defs L r.
   Proof.
-    unfold registry_ofb. intros H Hnd. apply andb_prop in H as [H H3]. apply andb_prop in H as [H1 H2].
+    unfold registry_ofb, registry_entries_ofb, labels_injectiveb. intros H Hnd.
+    apply andb_prop in H as [H H3]. apply andb_prop in H as [H1 H2].
     apply Nat.eqb_eq in H1. apply forall2b_Forall2 in H2.
     unfold prelude_nodocs_b in Hnd. rewrite forallb_forall in Hnd.
     split; [|split].
